@@ -246,9 +246,12 @@ class NarwhalsMaterializer(FormulaMaterializer):
             native_namespace=nw.get_native_namespace(self.__narwhals_data),
         )
         if spec.output == "narwhals":
+            # (for pandas-backed data the native frame is a pandas frame: it
+            # keeps the row labels of the retained rows)
+            native = self._restore_pandas_index(combined.to_native(), drop_rows)
             if nw.dependencies.is_narwhals_dataframe(self.data):
-                return combined
-            return combined.to_native()
+                return nw.from_native(native, eager_only=True)
+            return native
         if spec.output == "pandas":
             return self._restore_pandas_index(combined.to_pandas(), drop_rows)
         if spec.output == "numpy":
